@@ -18,7 +18,7 @@ SUPPORTS = {
         'blobs': [(0, 0), (0, 1), (1, 0), (4, 4), (4, 5), (3, 5), (3, 4)]}, 'kmax': 4},
 }
 SUPPORTS['quick'] = dict(SUPPORTS['thorough'], kmax=3)
-CHAINS = ['one', 'two_mono', 'two_seg', 'tilt_chain', 'blocktilt', 'signed']
+CHAINS = ['one', 'two_mono', 'two_seg', 'tilt_chain', 'blocktilt', 'signed', 'flood']
 PROPS = [dict(shape=(5, 5), prop_shape=None, oversample=2), dict(shape=(6, 5), prop_shape=(3, 4), oversample=1),
          dict(shape=(7, 7), prop_shape=(2, 2), oversample=1)]
 
@@ -76,6 +76,9 @@ def build_chain(tier, cfg, seed, segmented):
         full = seg_mask(shape, pix, rgs)
         for k in range(full.shape[0]):
             opd = opd + full[k] * ([1, 0, 2, 3][k] * op.DU / Z) * rr * DX
+    if cfg['chain'] == 'flood':
+        # flood illumination: the amplitude array is non-zero everywhere, only the mask defines the aperture
+        amp = rm.generic_real(shape, seed, tag=51, lo=0.4, hi=1.0)
     if cfg['chain'] == 'signed':
         # amplitude transmission with sign flips (a pi phase step written into the amplitude); the monolithic description
         # lets the plane derive its mask from the amplitude
@@ -95,7 +98,7 @@ def build_chain(tier, cfg, seed, segmented):
         t2 = (-1.7 * op.DU / Z, 1.2 * op.DU / Z)
         return lentil.Wavefront(WL, tilt=list(t1)) * p1 * lentil.Tilt(x=t2[0], y=t2[1])
     w = lentil.Wavefront(WL) * p1
-    if cfg['chain'] not in ('one', 'blocktilt', 'rescaled', 'signed'):
+    if cfg['chain'] not in ('one', 'blocktilt', 'rescaled', 'signed', 'flood'):
         amp2 = rm.generic_real(shape, seed, tag=53, lo=0.5, hi=1.0)
         opd2 = rm.generic_real(shape, seed, tag=54, lo=-0.1, hi=0.1) * WL
         # second aperture: everything except the first support pixel and one extra corner
@@ -119,6 +122,8 @@ def model_field(tier, cfg, seed, drop_singletons=False):
     if cfg['chain'] == 'signed':
         flips = np.where((np.arange(shape[0])[:, None] + 2 * np.arange(shape[1])[None, :]) % 3 == 0, -1.0, 1.0)
         amp = amp * flips
+    if cfg['chain'] == 'flood':
+        amp = rm.generic_real(shape, seed, tag=51, lo=0.4, hi=1.0)
     f = op.phasor(amp, opd, WL, union)
     if drop_singletons:
         rgs = cfg['rgs']
@@ -126,7 +131,7 @@ def model_field(tier, cfg, seed, drop_singletons=False):
             members = [p for p, bb in zip(pix, rgs) if bb == b]
             if len(members) == 1 and tuple(members[0]) != (shape[0] // 2, shape[1] // 2) and max(rgs) > 0:
                 f[members[0]] = 0
-    if cfg['chain'] not in ('one', 'tilt_chain', 'blocktilt', 'rescaled', 'signed'):
+    if cfg['chain'] not in ('one', 'tilt_chain', 'blocktilt', 'rescaled', 'signed', 'flood'):
         amp2 = rm.generic_real(shape, seed, tag=53, lo=0.5, hi=1.0)
         opd2 = rm.generic_real(shape, seed, tag=54, lo=-0.1, hi=0.1) * WL
         m2 = np.ones(shape); m2[pix[0]] = 0; m2[-1, 0] = 0
